@@ -133,3 +133,108 @@ fn roundtrip_value_coin_only() {
         None => { assert!(false); }
     }
 }
+
+// ---- C14: Value / MultiAsset arithmetic and comparison against a component-wise reference, on a fixed universe of
+// 2 policies x 2 asset names with symbolic presence (absent / explicit zero / any amount) and symbolic coins: BOUNDED shape --------
+fn mk_value(coin: u64, present: [bool; 4], amt: [u64; 4]) -> Value {
+    let p = [ScriptHash::from([0u8; 28]), ScriptHash::from([1u8; 28])];
+    let n0 = match AssetName::new(vec![0x61]) { Ok(x) => x, Err(_) => { kani::assume(false); loop {} } };
+    let n1 = match AssetName::new(vec![0x62]) { Ok(x) => x, Err(_) => { kani::assume(false); loop {} } };
+    let mut ma = MultiAsset::new();
+    let mut any = false;
+    let mut i = 0;
+    while i < 4 {
+        if present[i] {
+            let name = if i % 2 == 0 { &n0 } else { &n1 };
+            ma.set_asset(&p[i / 2], name, &BigNum(amt[i]));
+            any = true;
+        }
+        i += 1;
+    }
+    let mut v = Value::new(&BigNum(coin));
+    if any { v.set_multiasset(&ma); }
+    v
+}
+fn view(v: &Value) -> [u64; 4] {
+    let p = [ScriptHash::from([0u8; 28]), ScriptHash::from([1u8; 28])];
+    let n0 = match AssetName::new(vec![0x61]) { Ok(x) => x, Err(_) => { kani::assume(false); loop {} } };
+    let n1 = match AssetName::new(vec![0x62]) { Ok(x) => x, Err(_) => { kani::assume(false); loop {} } };
+    let mut out = [0u64; 4];
+    if let Some(ma) = v.multiasset() {
+        out[0] = ma.get_asset(&p[0], &n0).0; out[1] = ma.get_asset(&p[0], &n1).0;
+        out[2] = ma.get_asset(&p[1], &n0).0; out[3] = ma.get_asset(&p[1], &n1).0;
+    }
+    out
+}
+fn any_amounts() -> ([bool; 4], [u64; 4]) {
+    let present: [bool; 4] = kani::any();
+    let amt: [u64; 4] = kani::any();
+    (present, amt)
+}
+fn eff(present: [bool; 4], amt: [u64; 4], i: usize) -> u64 { if present[i] { amt[i] } else { 0 } }
+
+#[kani::proof]
+#[kani::stub(alloc::fmt::format, stub_format)]
+#[kani::unwind(8)]
+fn value_checked_add_exact_2x2() {
+    let (pa, aa) = any_amounts();
+    let (pb, ab) = any_amounts();
+    let ca: u64 = kani::any();
+    let cb: u64 = kani::any();
+    let a = mk_value(ca, pa, aa);
+    let b = mk_value(cb, pb, ab);
+    let mut overflow = ca.checked_add(cb).is_none();
+    let mut i = 0;
+    while i < 4 { if eff(pa, aa, i).checked_add(eff(pb, ab, i)).is_none() { overflow = true; } i += 1; }
+    match a.checked_add(&b) {
+        Ok(s) => {
+            assert!(!overflow, "checked_add returned Ok although a component overflows");
+            assert!(s.coin().0 == ca + cb);
+            let v = view(&s);
+            let mut j = 0;
+            while j < 4 { assert!(v[j] == eff(pa, aa, j) + eff(pb, ab, j)); j += 1; }
+        }
+        Err(_) => { assert!(overflow, "checked_add failed although every component fits"); }
+    }
+}
+
+#[kani::proof]
+#[kani::stub(alloc::fmt::format, stub_format)]
+#[kani::unwind(8)]
+fn value_compare_componentwise_2x2() {
+    let (pa, aa) = any_amounts();
+    let (pb, ab) = any_amounts();
+    let ca: u64 = kani::any();
+    let cb: u64 = kani::any();
+    let a = mk_value(ca, pa, aa);
+    let b = mk_value(cb, pb, ab);
+    let mut le = ca <= cb;
+    let mut ge = ca >= cb;
+    let mut i = 0;
+    while i < 4 { if eff(pa, aa, i) > eff(pb, ab, i) { le = false; } if eff(pa, aa, i) < eff(pb, ab, i) { ge = false; } i += 1; }
+    let expect: Option<i8> = if le && ge { Some(0) } else if le { Some(-1) } else if ge { Some(1) } else { None };
+    assert!(a.compare(&b) == expect);
+}
+
+#[kani::proof]
+#[kani::stub(alloc::fmt::format, stub_format)]
+#[kani::unwind(8)]
+fn value_sub_undoes_add_2x2() {
+    let (pa, aa) = any_amounts();
+    let (pb, ab) = any_amounts();
+    let ca: u64 = kani::any();
+    let cb: u64 = kani::any();
+    let a = mk_value(ca, pa, aa);
+    let b = mk_value(cb, pb, ab);
+    if let Ok(s) = a.checked_add(&b) {
+        match s.checked_sub(&b) {
+            Ok(d) => {
+                assert!(d.coin().0 == ca);
+                let v = view(&d);
+                let mut j = 0;
+                while j < 4 { assert!(v[j] == eff(pa, aa, j)); j += 1; }
+            }
+            Err(_) => { assert!(false, "(a+b)-b failed"); }
+        }
+    }
+}
